@@ -82,7 +82,7 @@ def random_free(kind, c, rng, n):
     return steps
 
 
-def run_family(prop, tier, plan, free_plan, assumptions, mc_extra=()):
+def run_family(prop, tier, plan, free_plan, assumptions, mc_extra=(), post=None):
     res = vlib.Result(prop, tier)
     rng = random.Random(vlib.seed())
     vh = vlib.build_vh()
@@ -171,11 +171,89 @@ def run_family(prop, tier, plan, free_plan, assumptions, mc_extra=()):
         model_check(res, kind, mc)
     for kind, c in mc_extra:      # model-only configurations (e.g. a watermark channel of capacity 1: drop + ticker retry)
         model_check(res, kind, c)
+    if post:
+        post(res, rng, vh, scen)
     return res.finish()
+
+
+def proc_stage(res, rng, vh, scen, size=2, maxnow=5, maxev=3, nmodel=120, nfree=12, mc=None):
+    """Processing-time tumbling window (the default time characteristic): model check ProcTumbling, replay its
+    behaviours in real time with the timer goroutine gated (lagging / coalesced ticks), plus free-running inputs;
+    every trace is validated by TraceProc (each row exactly once, in an epoch-aligned interval containing its arrival)."""
+    mc = mc or dict(size=size, maxnow=maxnow + 3, maxev=maxev + 1)
+    for keep in ["next"]:
+        cfg = ("SPECIFICATION Spec\nCONSTANTS Size = %d MaxNow = %d MaxEv = %d Emit = FALSE KeepFrom = \"%s\"\n"
+               "INVARIANTS NoLoss ExactlyOnce NoRepeat OnGrid SlotBehind\nVIEW View\nCHECK_DEADLOCK FALSE\n" % (mc["size"], mc["maxnow"], mc["maxev"], keep))
+        r = vlib.tlc(SPEC, "ProcTumbling", cfg, workers=8, timeout=900)
+        res.add_model("ProcTumbling", r, dict(mc, kind="proctumbling"))
+        if not r["ok"]:
+            if r["violated"]:
+                res.notes.append("MODEL-COUNTEREXAMPLE proctumbling: invariant %s fails in the model; decided by the replay" % r["violated"])
+            else:
+                raise vlib.Inconclusive("TLC failed on ProcTumbling:\n" + r.get("error", r["out"][-2000:]))
+    cfg = ("SPECIFICATION Spec\nCONSTANTS Size = %d MaxNow = %d MaxEv = %d Emit = TRUE KeepFrom = \"next\"\nINVARIANTS EmitScenario\nCHECK_DEADLOCK FALSE\n"
+           % (size, maxnow, maxev))
+    r = vlib.tlc(SPEC, "ProcTumbling", cfg, workers=1, timeout=900)
+    if not r["ok"]:
+        raise vlib.Inconclusive("ProcTumbling scenario generation failed:\n" + r["out"][-2000:])
+    res.cov["states"] += r["distinct"]
+    res.cov["transitions"] += r["generated"]
+    beh = [json.loads(x[1]) for x in vlib.prints(r["out"], "SCEN")]
+    total = len(beh)
+    if len(beh) > nmodel:
+        beh = rng.sample(beh, nmodel)
+        res.cov["exhaustive"] = False
+    sc_path = os.path.join(vlib.scratch(), "proc_scen.ndjson")
+    tr_path = os.path.join(vlib.scratch(), "proc_trace.ndjson")
+    base = max(scen) if scen else 0
+    mine = {}
+    with open(sc_path, "w") as f:
+        for steps in beh:
+            base += 1
+            sc = {"tr": base, "size_ms": rng.choice([60, 80, 100]), "ticks": size, "groups": rng.choice([1, 2, 3]), "free": False, "steps": steps}
+            mine[base] = sc
+            f.write(json.dumps(sc) + "\n")
+        for _ in range(nfree):
+            base += 1
+            steps = []
+            for i in range(1, rng.choice([20, 40, 80]) + 1):
+                steps.append({"a": "add", "id": i})
+                g = rng.choice([0, 0, 50, 300, 2000, 9000, 30000, 70000])
+                if g:
+                    steps.append({"a": "sleep", "gap": g})
+            sc = {"tr": base, "size_ms": rng.choice([20, 35, 50, 80]), "ticks": 0, "groups": rng.choice([1, 2, 3]), "free": True, "steps": steps}
+            mine[base] = sc
+            f.write(json.dumps(sc) + "\n")
+    rc, out = vlib.sh([vh, "proc", "-scen", sc_path, "-out", tr_path, "-par", "24"], 1500)
+    if rc != 0:
+        raise vlib.Inconclusive("proc driver failed:\n" + out[-3000:])
+    inc = [l for l in out.splitlines() if l.startswith("INCONCLUSIVE")]
+    if len(inc) > max(3, len(mine) // 20):
+        raise vlib.Inconclusive("%d of %d processing-time scenarios inconclusive, e.g. %s" % (len(inc), len(mine), inc[0]))
+    m = [l for l in out.splitlines() if l.startswith("RAN")]
+    res.notes.append("processing-time tumbling: %d of %d model behaviours replayed in real time + %d free-running; %s" % (len(beh), total, nfree, m[0] if m else ""))
+    rej, _, nlines = vlib.validate(SPEC, "TraceProc", tr_path, set())
+    seen = set()
+    for tr, line, code in rej:
+        if tr in seen:
+            continue
+        seen.add(tr)
+        res.violation("processing-time tumbling: %s at trace line %d of scenario %d" % (code, line, tr), mine.get(tr))
+    res.cov["traces_validated_against_impl"] += len(mine) - len(inc)
+    res.cov["evaluations"] += len(mine)
+    res.cov["trace_events"] += nlines
 
 
 def replay_one(sc):
     vh = vlib.build_vh()
+    if "size_ms" in sc:          # processing-time scenario
+        sp = os.path.join(vlib.scratch(), "one.ndjson")
+        tp = os.path.join(vlib.scratch(), "one.trace")
+        open(sp, "w").write(json.dumps(dict(sc, tr=1)) + "\n")
+        rc, out = vlib.sh([vh, "proc", "-scen", sp, "-out", tp], 120)
+        print(out.strip())
+        print(open(tp).read())
+        return vlib.validate(SPEC, "TraceProc", tp, set())[0]
     sp = os.path.join(vlib.scratch(), "one.ndjson")
     tp = os.path.join(vlib.scratch(), "one.trace")
     sc = dict(sc, tr=1)
